@@ -717,7 +717,7 @@ class Image:
         origin = self.coordinatesystem.coordinate(origin_voxel)
 
         opposite_voxel = [
-            self.num_voxels[i] if sl.stop is None else sl.stop
+            self.num_voxels[i] if sl.stop is None else min(sl.stop, self.num_voxels[i])
             for i, sl in enumerate(voxels)
         ]
         opposite = self.coordinatesystem.coordinate(opposite_voxel)
